@@ -32,7 +32,7 @@ static const char *const PROBE_NAMES[PR__COUNT] = {
     "throw_with_heap_target", "throw_with_heap_rvalue_argument", "object_reused_after_throw",
     "fault_in_allocate_after_release", "fault_in_vector_growth", "fault_while_constructing_exception",
     "target_empty_after_fault", "target_old_value_after_fault", "fault_in_stream_growth", "fault_in_std_function", "stream_topped_up_before_append",
-    "storage_retained_by_static_or_thread_local_object_after_teardown", "step_executed_by_a_helper_thread",
+    "storage_retained_by_static_or_thread_local_object_after_teardown", "step_executed_by_a_helper_thread", "operation_repeated_at_once_after_its_allocation_fault_fired",
 };
 const char *probe_name(int i) { return (i >= 0 && i < PR__COUNT) ? PROBE_NAMES[i] : "?"; }
 const char *exc_name(int e) {
@@ -694,6 +694,7 @@ namespace {
 struct Helper { std::thread th; std::mutex m; std::condition_variable cv; const std::function<void()> *job = nullptr; bool done = false; };
 Helper *g_helpers[2] = {nullptr, nullptr};
 void helper_main(Helper *h) {
+    simrt::heap_note_thread_roots();      // this thread's thread-local storage is a root of the retained-versus-leaked scan too
     std::unique_lock<std::mutex> lk(h->m);
     for (;;) {
         h->cv.wait(lk, [&] { return h->job != nullptr; });
@@ -701,7 +702,7 @@ void helper_main(Helper *h) {
         h->cv.notify_all();
     }
 }
-void forget_helpers_in_child() { g_helpers[0] = g_helpers[1] = nullptr; }      // fork() clones the calling thread only: a child makes its own helpers
+void forget_helpers_in_child() { g_helpers[0] = g_helpers[1] = nullptr; simrt::heap_forget_thread_roots(); }      // fork() clones the calling thread only: a child makes its own helpers
 }
 void on_helper(int k, const std::function<void()> &fn) {
     static bool atfork = (pthread_atfork(nullptr, nullptr, forget_helpers_in_child), true); (void)atfork;
